@@ -100,7 +100,10 @@ func handleUIDFetch(deps ServerDeps, conn net.Conn, tag string, parts []string, 
 
 	// Convert UIDs to a sequence set format that HandleFetchForUIDs can use
 	// For each UID, we need to fetch using the same logic as handleFetch
-	message.HandleFetchForUIDs(deps, conn, tag, uids, items, state)
+	if err := message.HandleFetchForUIDs(deps, conn, tag, uids, items, state); err != nil {
+		deps.SendResponse(conn, fmt.Sprintf("%s NO UID FETCH failed: message content cannot be read", tag))
+		return
+	}
 
 	deps.SendResponse(conn, fmt.Sprintf("%s OK UID FETCH completed", tag))
 }
